@@ -25,6 +25,7 @@ CHECKS = {
     'C10': 'harness.c10',
     'C12': 'harness.c12',
     'C14': 'harness.c14',
+    'C16': 'harness.c16',
     'C17': 'harness.c17',
     'C19': 'harness.c19',
     'C20': 'harness.c20',
